@@ -16,6 +16,7 @@ copy() {
         --exclude '/replays' --exclude '/.git' --exclude '/coverage' "$V/" "$SNAP/"
     mkdir -p "$SNAP/evidence"
     sed -i "s#\"/repo\"#\"$WT\"#" "$SNAP/harness/Cargo.toml" "$SNAP/ffi-driver/Cargo.toml"
+    sed -i "s#\"/repo/#\"$WT/#" "$SNAP/harness/src/fixtures.rs"
     sed -i "s#/repo#$WT#g" "$SNAP/tools/lib.sh" "$SNAP/tools/seed_run.sh" "$SNAP/tools/seed_matrix.sh" "$SNAP/tools/seed_rebase.sh" "$SNAP/tools/engines/c18.py"
 }
 case "${1:-}" in
